@@ -185,3 +185,41 @@ def check(spec, tier, seed, replay=None):
     C.log("[%s] ok: %d/%d theorems, %d cases agree (model=impl), %d re-evaluated in Coq, %.1fs"
           % (pid, ps["discharged"], ps["obligations"], n_cases, n_coq, time.time() - t0))
     return 0
+
+
+def component_tie(comp_spec, tier, seed):
+    """The lockstep differential of one component (cached per /repo tree, binaries, tier, seed),
+    for node-level properties whose statement rests on that component's mechanics.
+    Returns dict(component, cases, disagreements, first)."""
+    import json
+    h = hashlib.sha1()
+    h.update(C.repo_tree_hash().encode())
+    for p in (C.VH, C.DRIVER):
+        st = os.stat(p)
+        h.update(("%s:%d:%d" % (p, st.st_mtime_ns, st.st_size)).encode())
+    h.update(("c1:%s:%s:%s" % (comp_spec["component"], tier, seed)).encode())
+    key = h.hexdigest()[:16]
+    rd = os.path.join(C.BUILD, "run")
+    d = os.path.join(rd, "comp-%s-%s" % (comp_spec["component"], key))
+    summ = os.path.join(d, "summary.json")
+    with C.Lock("compcache-" + comp_spec["component"]):
+        if os.path.exists(summ):
+            return json.load(open(summ))
+        os.makedirs(rd, exist_ok=True)
+        for f in os.listdir(rd):
+            if f.startswith("comp-%s-" % comp_spec["component"]) and f != os.path.basename(d):
+                shutil.rmtree(os.path.join(rd, f), ignore_errors=True)
+        shutil.rmtree(d, ignore_errors=True)
+        os.makedirs(d)
+        generate(comp_spec, tier, seed, d)
+        n_cases = n_dis = 0
+        first = None
+        for g in comp_spec["gens"]:
+            n, f1, nd = C.run_model_on_shards(d, g["prefix"])
+            n_cases += n; n_dis += nd
+            if f1 and first is None:
+                first = f1
+        res = {"component": comp_spec["component"], "cases": n_cases, "disagreements": n_dis,
+               "first": ({"case": first["case"][:2000], "impl": first["impl"][:600], "model": first["model"][:600]} if first else None)}
+        json.dump(res, open(summ, "w"))
+        return res
